@@ -102,18 +102,22 @@ def letters(dimname):
 # ------------------------------------------------------------------------------------------------
 # construction of the real behaviours
 # ------------------------------------------------------------------------------------------------
-def build_behavior(cfg, solver="auto"):
-    """Returns the real Behavior of a factor configuration (raises what the constructor raises)."""
+def build_behavior(cfg, solver="auto", unit=1.0):
+    """Returns the real Behavior of a factor configuration (raises what the constructor raises).
+    unit: every stress-like constant is multiplied by it (the same material written in another unit of stress)."""
     from EasyFEA import Models
     from EasyFEA.Models.Elastic._laws import Isotropic
 
     I = Models.InElastic
-    el = Isotropic(3, E=E_MOD, v=NU)
+    el = Isotropic(3, E=E_MOD * unit, v=NU)
     y = YIELDS[cfg["yield"]]
-    ys = None if y is None else getattr(I.Yield, y[0])(SIGMA_Y, **y[1])
+    ys = None if y is None else getattr(I.Yield, y[0])(SIGMA_Y * unit, **y[1])
     h = HARDENINGS[cfg["hardening"]]
-    hd = None if h is None else getattr(I.IsotropicHardening, h[0])(**h[1])
+    hp = None if h is None else {k_: (v_ * unit if k_ in ("H", "Q", "K") else v_) for k_, v_ in h[1].items()}
+    hd = None if h is None else getattr(I.IsotropicHardening, h[0])(**hp)
     k = KINEMATICS[cfg["kinematic"]]
+    if k is not None:
+        k = [(c_ * unit, g_) for c_, g_ in k]
     if k is None:
         kin = None
     elif cfg["kinematic"] == "Prager":
@@ -123,7 +127,8 @@ def build_behavior(cfg, solver="auto"):
     else:
         kin = I.KinematicHardening.Chaboche(*k)
     r = RATES[cfg["rate"]]
-    rate = None if r is None else getattr(I.ViscoPlastic, r[0])(**r[1])
+    rp = None if r is None else {k_: (v_ * unit if k_ == "sigma_0" else v_) for k_, v_ in r[1].items()}
+    rate = None if r is None else getattr(I.ViscoPlastic, r[0])(**rp)
     br = tuple(I.ViscoElastic.Maxwell(g, tau) for g, tau in BRANCHES[cfg["branches"]])
     dim = 3 if cfg["dim"] == "3D" else 2
     return I.Behavior(dim, el, yieldSurface=ys, hardening=hd, kinematic=kin, rate=rate, branches=br,
@@ -962,6 +967,13 @@ def cases(tier, seed):
     for c in psi_cfgs:
         if accepted(c):
             out.append({"kind": "psi", **c})
+    # the same material written in another unit of stress (MPa -> GPa: yield stress 0.25): stresses and tangents scale, strains do not
+    unit_cfgs = [dict(_DEFAULT_MP, **d) for d in (
+        {}, {"hardening": "Voce"}, {"yield": "HillAniso"}, {"yield": "DruckerPrager"}, {"kinematic": "Prager"}, {"rate": "Norton"},
+        {"dim": "PlaneStress"}, {"dim": "PlaneStrain", "hardening": "Swift"}, {"branches": "one"})]
+    for c in unit_cfgs:
+        if accepted(c):
+            out.append({"kind": "units", **c})
     return out
 
 
@@ -1101,7 +1113,60 @@ def run_psi(case):
     return {"violations": v, "fingerprint": fp("psi", cfg, *obs), "nontrivial": flowed or not lay.n, "transitions": ntr, "outcome": "ok" if not v else "violation"}
 
 
+def run_units(case):
+    cfg = {k: case[k] for k in FACTORS}
+    lay = Layout(cfg)
+    U = 1e-3
+    behA, behB = build_behavior(cfg, "auto"), build_behavior(cfg, "auto", unit=U)
+    L, lnames = letters(cfg["dim"])
+    n = L.shape[1]
+    stats = new_stats()
+    dt = time_step(cfg)
+    v, obs, ntr = [], [], 0
+    f_eps, f_z, f_names = np.zeros((1, n)), np.zeros((1, lay.n)), [[]]
+    flowed = False
+    for depth in (1, 2):
+        eps = (f_eps[:, None, :] + L[None]).reshape(-1, n)
+        zold = np.repeat(f_z, len(L), axis=0)
+        names = [p + [x] for p in f_names for x in lnames]
+        sA, CA, zA, okA, rA, _ = integrate(behA, eps, zold, dt, stats)
+        sB, CB, zB, okB, rB, _ = integrate(behB, eps, zold, dt, stats)
+        ntr += 2 * len(eps)
+        both = okA & ~rA & okB & ~rB
+        only = (okA & ~rA) != (okB & ~rB)
+        gi = np.nonzero(both)[0]
+        if not len(gi):
+            break
+        flowed = flowed or bool(lay.n and np.abs(zA[gi]).max() > 0)
+        sc = np.maximum(np.abs(sA[gi]).max(axis=1), SIGMA_Y)
+        es = np.abs(sB[gi] / U - sA[gi]).max(axis=1) / sc
+        ez = (np.abs(zB[gi] - zA[gi]).max(axis=1) / np.maximum(np.abs(zA[gi]).max(axis=1), EPS_Y)) if lay.n else np.zeros(len(gi))
+        ec = np.abs(CB[gi] / U - CA[gi]).reshape(len(gi), -1).max(axis=1) / E_MOD
+        if lay.n:
+            # the tangent is compared where the step clearly flowed in both unit systems, or from a virgin state: a neutral step that ends ON the
+            # surface without flow sits on the kink between the elastic and the elasto-plastic tangent (either is right)
+            dzA = np.abs(zA[gi] - zold[gi]).max(axis=1)
+            dzB = np.abs(zB[gi] - zold[gi]).max(axis=1)
+            clear = ((dzA > 1e-6 * EPS_Y) & (dzB > 1e-6 * EPS_Y)) | (np.abs(zold[gi]).max(axis=1) == 0.0) & (dzA == 0.0) & (dzB == 0.0)
+            ec = np.where(clear, ec, 0.0)
+        obs.append(np.round(sA[gi] / SIGMA_Y, 6))
+        for nm, e, tol in (("stress", es, 1e-7), ("state", ez, 1e-7), ("tangent", ec, 1e-5)):
+            j = int(np.argmax(e))
+            if e[j] > tol:
+                v.append(viol("unit_system", f"{nm} of the same step computed in another unit of stress (all stress-like constants x {U:g}) differs by {e[j]:.3e} after rescaling "
+                                             f"[path {'>'.join(names[gi[j]])}; depth {depth}]", quantity=nm, **cfg_key(cfg)))
+        if v:
+            break
+        rows = np.round(np.hstack([eps[gi] / EPS_Y, zA[gi] / EPS_Y]), 7) + 0.0
+        _, first_idx = np.unique(rows, axis=0, return_index=True)
+        keep = np.sort(first_idx)
+        f_eps, f_z, f_names = eps[gi][keep], zA[gi][keep], [names[gi[i]] for i in keep]
+    return {"violations": _dedupe(v), "fingerprint": fp("units", cfg, *obs), "nontrivial": flowed or not lay.n, "transitions": ntr, "outcome": "ok" if not v else "violation"}
+
+
 def run_case(case):
+    if case["kind"] == "units":
+        return run_units(case)
     if case["kind"] == "psi":
         return run_psi(case)
     if case["kind"] == "mp":
